@@ -1541,4 +1541,955 @@ theorem empty_no_key (hI : Ideal A) (rc : RCfg) (hch : rc.checkHash = true)
       · exact hlt
       · exact absurd ⟨k', hk', hhas, hgt⟩ hnot
 
+/-! ### trie2 range proofs, general case: the rebuilt trie agrees with the claimed entries on the interval -/
+
+set_option linter.unusedSimpArgs false
+
+theorem lastVal_nil (k : Path) : lastVal ([] : List (Path × H)) k = none := rfl
+
+theorem keysUnder_filter (b : Bool) (kvs : List (Path × H)) (k' : Path) :
+    (keysUnder b kvs).filter (fun kv => kv.1 = k') =
+      (kvs.filter (fun kv => kv.1 = b :: k')).map (fun kv => (kv.1.tail, kv.2)) := by
+  induction kvs with
+  | nil => rfl
+  | cons kv rest ih =>
+    obtain ⟨key, v⟩ := kv
+    cases key with
+    | nil => simpa [keysUnder] using ih
+    | cons x t =>
+      by_cases hx : x = b
+      · subst hx
+        by_cases ht : t = k'
+        · subst ht
+          simp only [keysUnder, List.filterMap_cons, if_true] at ih ⊢
+          simp [ih]
+        · simp only [keysUnder, List.filterMap_cons, if_true] at ih ⊢
+          simp [ht, ih]
+      · simp only [keysUnder, List.filterMap_cons, hx, if_false] at ih ⊢
+        have : ¬ (x :: t = b :: k') := fun h => hx (List.cons.inj h).1
+        simp [this, ih]
+
+theorem lastVal_keysUnder (b : Bool) (kvs : List (Path × H)) (k' : Path) :
+    lastVal (keysUnder b kvs) k' = lastVal kvs (b :: k') := by
+  unfold lastVal
+  rw [keysUnder_filter, List.getLast?_map]
+  cases (kvs.filter (fun kv => kv.1 = b :: k')).getLast? <;> rfl
+
+theorem keysUnder_length {b : Bool} {kvs : List (Path × H)} {h : Nat}
+    (hl : ∀ kv ∈ kvs, kv.1.length = h + 1) : ∀ kv ∈ keysUnder b kvs, kv.1.length = h := by
+  intro kv hkv
+  simp only [keysUnder, List.mem_filterMap] at hkv
+  obtain ⟨⟨key, v⟩, hmem, hsome⟩ := hkv
+  cases key with
+  | nil => simp at hsome
+  | cons x t =>
+    simp only at hsome
+    split at hsome
+    · cases hsome
+      have := hl _ hmem
+      simpa using this
+    · cases hsome
+
+
+theorem get_mkEdge (p : Path) (c : Tree H) (k : Path) :
+    (mkEdge p c).get A k = if p.isPrefixOf k then c.get A (k.drop p.length) else A.zero := by
+  cases p with
+  | nil => simp [mkEdge]
+  | cons x xs =>
+    cases c with
+    | leaf v => simp [mkEdge, Tree.get]
+    | bin l r => simp [mkEdge, Tree.get]
+    | edge q d =>
+      simp only [mkEdge, Tree.get]
+      by_cases h1 : (x :: xs).isPrefixOf k = true
+      · obtain ⟨t, rfl⟩ := isPrefixOf_true_iff.mp h1
+        simp only [h1, if_true]
+        have hd : ((x :: xs) ++ t).drop (x :: xs).length = t := by simp
+        rw [hd]
+        by_cases h2 : q.isPrefixOf t = true
+        · obtain ⟨u, rfl⟩ := isPrefixOf_true_iff.mp h2
+          have h3 : ((x :: xs) ++ q).isPrefixOf ((x :: xs) ++ (q ++ u)) = true :=
+            isPrefixOf_true_iff.mpr ⟨u, by simp⟩
+          simp only [h2, h3, if_true]
+          congr 1
+          simp
+        · have h3 : ((x :: xs) ++ q).isPrefixOf ((x :: xs) ++ t) = false := by
+            cases h4 : ((x :: xs) ++ q).isPrefixOf ((x :: xs) ++ t) with
+            | false => rfl
+            | true =>
+              obtain ⟨u, hu⟩ := isPrefixOf_true_iff.mp h4
+              exact absurd (isPrefixOf_true_iff.mpr ⟨u, by
+                have := hu; simp only [List.append_assoc] at this
+                exact List.append_cancel_left this⟩) h2
+          have h2' : q.isPrefixOf t = false := by cases hq : q.isPrefixOf t <;> simp_all
+          simp only [List.cons_append] at h3 ⊢
+          simp only [h2', h3, Bool.false_eq_true, if_false]
+      · have h1' : (x :: xs).isPrefixOf k = false := by cases hq : (x :: xs).isPrefixOf k <;> simp_all
+        have h3 : ((x :: xs) ++ q).isPrefixOf k = false := by
+          cases h4 : ((x :: xs) ++ q).isPrefixOf k with
+          | false => rfl
+          | true =>
+            obtain ⟨u, hu⟩ := isPrefixOf_true_iff.mp h4
+            exact absurd (isPrefixOf_true_iff.mpr ⟨q ++ u, by simpa [List.append_assoc] using hu⟩) h1
+        simp only [List.cons_append] at h3 ⊢
+        simp only [h1', h3, Bool.false_eq_true, if_false]
+
+theorem WF_mkEdge {p : Path} {c : Tree H} {n : Nat} (hc : WF c n) : WF (mkEdge p c) (p.length + n) := by
+  cases p with
+  | nil => simpa [mkEdge] using hc
+  | cons x xs =>
+    cases c with
+    | leaf v => exact WF.edge (by simp) hc
+    | bin l r => exact WF.edge (by simp) hc
+    | edge q d =>
+      obtain ⟨m, rfl, _, hd⟩ := hc.edge_inv
+      have : WF (Tree.edge ((x :: xs) ++ q) d) (((x :: xs) ++ q).length + m) := WF.edge (by simp) hd
+      have e : ((x :: xs) ++ q).length + m = (x :: xs).length + (q.length + m) := by simp; omega
+      rw [e] at this
+      simpa [mkEdge] using this
+
+theorem build_wf : ∀ (h : Nat) (kvs : List (Path × H)) (t : Tree H), build h kvs = some t → WF t h := by
+  intro h
+  induction h with
+  | zero =>
+    intro kvs t ht
+    simp only [build] at ht
+    split at ht
+    · cases ht; exact WF.leaf _
+    · cases ht
+  | succ h ih =>
+    intro kvs t ht
+    cases kvs with
+    | nil => simp [build] at ht
+    | cons kv rest =>
+      simp only [build] at ht
+      split at ht
+      · cases ht
+      · rename_i a ha _
+        cases ht
+        have := WF_mkEdge (p := [false]) (ih _ _ ha)
+        simpa [Nat.add_comm] using this
+      · rename_i b _ hb
+        cases ht
+        have := WF_mkEdge (p := [true]) (ih _ _ hb)
+        simpa [Nat.add_comm] using this
+      · rename_i a b ha hb
+        cases ht
+        exact WF.bin (ih _ _ ha) (ih _ _ hb)
+
+theorem get_build : ∀ (h : Nat) (kvs : List (Path × H)) (k : Path),
+    (∀ kv ∈ kvs, kv.1.length = h) → k.length = h →
+    Trie.get A (build h kvs) k = (lastVal kvs k).getD A.zero := by
+  intro h
+  induction h with
+  | zero =>
+    intro kvs k hl hk
+    have hk0 : k = [] := List.eq_nil_of_length_eq_zero hk
+    subst hk0
+    have hfil : kvs.filter (fun kv => kv.1 = []) = kvs := by
+      apply List.filter_eq_self.mpr
+      intro kv hkv
+      simpa using List.eq_nil_of_length_eq_zero (hl kv hkv)
+    simp only [build, lastVal, hfil]
+    cases kvs.getLast? with
+    | none => rfl
+    | some kv => obtain ⟨_, v⟩ := kv; rfl
+  | succ h ih =>
+    intro kvs k hl hk
+    cases k with
+    | nil => simp at hk
+    | cons b k' =>
+      have hk' : k'.length = h := by simpa using hk
+      cases kvs with
+      | nil => simp [build, Trie.get, lastVal]
+      | cons kv rest =>
+        have ihf := ih (keysUnder false (kv :: rest)) k' (keysUnder_length hl) hk'
+        have iht := ih (keysUnder true (kv :: rest)) k' (keysUnder_length hl) hk'
+        rw [lastVal_keysUnder] at ihf iht
+        simp only [build]
+        cases hbl : build h (keysUnder false (kv :: rest)) with
+        | none =>
+          cases hbr : build h (keysUnder true (kv :: rest)) with
+          | none =>
+            rw [hbl] at ihf; rw [hbr] at iht
+            cases b
+            · simpa [Trie.get] using ihf
+            · simpa [Trie.get] using iht
+          | some r =>
+            rw [hbl] at ihf; rw [hbr] at iht
+            simp only [Trie.get, get_mkEdge]
+            cases b
+            · simpa [List.isPrefixOf, Trie.get] using ihf
+            · simpa [List.isPrefixOf, Trie.get] using iht
+        | some l =>
+          cases hbr : build h (keysUnder true (kv :: rest)) with
+          | none =>
+            rw [hbl] at ihf; rw [hbr] at iht
+            simp only [Trie.get, get_mkEdge]
+            cases b
+            · simpa [List.isPrefixOf, Trie.get] using ihf
+            · simpa [List.isPrefixOf, Trie.get] using iht
+          | some r =>
+            rw [hbl] at ihf; rw [hbr] at iht
+            simp only [Trie.get, Tree.get]
+            cases b
+            · simpa [Trie.get] using ihf
+            · simpa [Trie.get] using iht
+
+
+theorem embed_lookup : ∀ (t : Tree H) (n : Nat) (k : Path), WF t n → k.length = n →
+    (embed (some t)).lookup A k = some (t.get A k) := by
+  intro t
+  induction t with
+  | leaf v =>
+    intro n k hwf hk
+    have := hwf.leaf_inv; subst this
+    simp [embed, embedT, PT.lookup, hk, Tree.get]
+  | bin l r ihl ihr =>
+    intro n k hwf hk
+    obtain ⟨m, rfl, hl, hr⟩ := hwf.bin_inv
+    cases k with
+    | nil => simp at hk
+    | cons b k' =>
+      have hk' : k'.length = m := by simpa using hk
+      cases b
+      · simpa [embed, embedT, PT.lookup, Tree.get] using ihl m k' hl hk'
+      · simpa [embed, embedT, PT.lookup, Tree.get] using ihr m k' hr hk'
+  | edge p c ih =>
+    intro n k hwf hk
+    obtain ⟨m, rfl, hp, hc⟩ := hwf.edge_inv
+    have hplen : 0 < p.length := List.length_pos_iff.mpr hp
+    have hp0 : ¬ p.length = 0 := by omega
+    simp only [embed, embedT, PT.lookup, hp0, if_false, Tree.get]
+    cases hpre : p.isPrefixOf k with
+    | true =>
+      simp only [if_true]
+      have := ih m (k.drop p.length) hc (by simp; omega)
+      simpa [embed] using this
+    | false =>
+      have : p.length ≤ k.length := by omega
+      simp [this]
+
+theorem embed_build_lookup (h : Nat) (kvs : List (Path × H)) (k : Path)
+    (hl : ∀ kv ∈ kvs, kv.1.length = h) (hk : k.length = h) :
+    (embed (build h kvs)).lookup A k = some ((lastVal kvs k).getD A.zero) := by
+  have hg := get_build (A := A) h kvs k hl hk
+  cases hb : build h kvs with
+  | none => rw [hb] at hg; simpa [embed, PT.lookup, Trie.get] using hg
+  | some t =>
+    rw [hb] at hg
+    rw [embed_lookup t h k (build_wf h kvs t hb) hk]
+    simpa [Trie.get] using hg
+
+/-- Lemma A: a partial trie that hashes like `t` agrees with `t` wherever it is resolved -/
+theorem lookup_agree (hI : Ideal A) : ∀ (T : PT H) (t : Tree H) (n : Nat) (k : Path) (r : H),
+    WF t n → k.length = n → T.phash A = t.hash A → T.lookup A k = some r → t.get A k = r := by
+  intro T
+  induction T with
+  | nil =>
+    intro t n k r hwf hk hh hl
+    simp only [PT.lookup, Option.some.injEq] at hl
+    subst hl
+    simp only [PT.phash] at hh
+    by_cases hn : 0 < n
+    · exact absurd hh.symm (hash_ne_zero hI hwf hn)
+    · have : n = 0 := by omega
+      subst this
+      rw [get_of_WF_zero hwf, ← hh]
+  | hash h => intro t n k r _ _ _ hl; simp [PT.lookup] at hl
+  | leaf v =>
+    intro t n k r hwf hk hh hl
+    simp only [PT.lookup] at hl
+    split at hl
+    · rename_i hk0
+      cases hl
+      have : n = 0 := by omega
+      subst this
+      rw [get_of_WF_zero hwf, ← hh]; rfl
+    · cases hl
+  | bin l r ihl ihr =>
+    intro t n k res hwf hk hh hl
+    cases k with
+    | nil => simp [PT.lookup] at hl
+    | cons b k' =>
+      simp only [PT.phash] at hh
+      cases t with
+      | leaf v => have := hwf.leaf_inv; subst this; simp at hk
+      | edge p c => exact absurd hh (hI.bin_ne_edge _ _ _ _)
+      | bin tl tr =>
+        obtain ⟨m, rfl, hwl, hwr⟩ := hwf.bin_inv
+        obtain ⟨h1, h2⟩ := hI.bin_inj _ _ _ _ hh
+        have hk' : k'.length = m := by simpa using hk
+        cases b
+        · simp only [PT.lookup, Bool.false_eq_true, if_false] at hl
+          simpa [Tree.get] using ihl tl m k' res hwl hk' h1 hl
+        · simp only [PT.lookup, if_true] at hl
+          simpa [Tree.get] using ihr tr m k' res hwr hk' h2 hl
+  | edge p c ih =>
+    intro t n k res hwf hk hh hl
+    simp only [PT.lookup] at hl
+    split at hl
+    · cases hl
+    · rename_i hp0
+      simp only [PT.phash] at hh
+      cases t with
+      | leaf v =>
+        have := hwf.leaf_inv; subst this
+        have hk0 : k = [] := List.eq_nil_of_length_eq_zero hk
+        subst hk0
+        have : p.isPrefixOf [] = false := by
+          cases p with
+          | nil => simp at hp0
+          | cons _ _ => rfl
+        have hlen : ¬ p.length ≤ ([] : Path).length := by simp only [List.length_nil]; omega
+        simp only [this, Bool.false_eq_true, if_false, hlen] at hl
+        cases hl
+      | bin tl tr => exact absurd hh.symm (hI.bin_ne_edge _ _ _ _)
+      | edge p' c' =>
+        obtain ⟨m, rfl, _, hwc⟩ := hwf.edge_inv
+        obtain ⟨h1, h2⟩ := hI.edge_inj _ _ _ _ hh
+        subst h2
+        simp only [Tree.get]
+        cases hpre : p.isPrefixOf k with
+        | true =>
+          rw [hpre] at hl
+          simp only [if_true] at hl ⊢
+          exact ih c' m _ res hwc (by simp; omega) h1 hl
+        | false =>
+          rw [hpre] at hl
+          simp only [Bool.false_eq_true, if_false] at hl ⊢
+          split at hl
+          · cases hl; rfl
+          · cases hl
+
+
+/-! bounds -/
+
+def inL : Bd → Path → Prop
+  | .unb, _ => True
+  | .out, _ => False
+  | .at f, k => f = k ∨ pathLt f k = true
+
+def inU : Bd → Path → Prop
+  | .unb, _ => True
+  | .out, _ => False
+  | .at l, k => k = l ∨ pathLt k l = true
+
+def BdLen : Bd → Nat → Prop
+  | .at f, h => f.length = h
+  | _, _ => True
+
+theorem inL_bin {L : Bd} {h : Nat} {b : Bool} {k' : Path} (hlen : BdLen L (h + 1)) (hin : inL L (b :: k')) :
+    inL (if b then (lowerBin L).2 else (lowerBin L).1) k' ∧
+    BdLen (if b then (lowerBin L).2 else (lowerBin L).1) h := by
+  cases L with
+  | unb => cases b <;> simp [lowerBin, inL, BdLen]
+  | out => exact absurd hin (by simp [inL])
+  | «at» f =>
+    cases f with
+    | nil => simp [BdLen] at hlen
+    | cons fb fk =>
+      have hfl : fk.length = h := by simpa [BdLen] using hlen
+      simp only [inL, pathLt] at hin
+      cases fb <;> cases b <;> simp [lowerBin, inL, BdLen, hfl] at hin ⊢
+      · exact hin
+      · exact hin
+
+theorem inU_bin {U : Bd} {h : Nat} {b : Bool} {k' : Path} (hlen : BdLen U (h + 1)) (hin : inU U (b :: k')) :
+    inU (if b then (upperBin U).2 else (upperBin U).1) k' ∧
+    BdLen (if b then (upperBin U).2 else (upperBin U).1) h := by
+  cases U with
+  | unb => cases b <;> simp [upperBin, inU, BdLen]
+  | out => exact absurd hin (by simp [inU])
+  | «at» f =>
+    cases f with
+    | nil => simp [BdLen] at hlen
+    | cons fb fk =>
+      have hfl : fk.length = h := by simpa [BdLen] using hlen
+      simp only [inU, pathLt] at hin
+      cases fb <;> cases b <;> simp [upperBin, inU, BdLen, hfl] at hin ⊢
+      · exact hin
+      · exact hin
+
+theorem take_ne_of_not_prefix {p f : Path} (hlen : p.length ≤ f.length) (hpre : p.isPrefixOf f = false) :
+    f.take p.length ≠ p := by
+  intro h
+  have : p.isPrefixOf f = true := isPrefixOf_true_iff.mpr ⟨f.drop p.length, by
+    conv => lhs; lhs; rw [← h]
+    exact List.take_append_drop _ _⟩
+  rw [hpre] at this; cases this
+
+theorem inL_edge {L : Bd} {h : Nat} {p k' : Path} (hph : p.length ≤ h) (hlen : BdLen L h)
+    (hin : inL L (p ++ k')) : inL (lowerEdge p L) k' ∧ BdLen (lowerEdge p L) (h - p.length) := by
+  cases L with
+  | unb => simp [lowerEdge, inL, BdLen]
+  | out => exact absurd hin (by simp [inL])
+  | «at» f =>
+    have hfl : f.length = h := hlen
+    simp only [lowerEdge]
+    cases hpre : p.isPrefixOf f with
+    | true =>
+      obtain ⟨f', rfl⟩ := isPrefixOf_true_iff.mp hpre
+      simp only [if_true, inL, BdLen, List.drop_left'] at hin ⊢
+      constructor
+      · rcases hin with h1 | h1
+        · exact Or.inl (List.append_cancel_left h1)
+        · exact Or.inr (by simpa [pathLt_append_left] using h1)
+      · simp at hfl ⊢; omega
+    | false =>
+      simp only [Bool.false_eq_true, if_false]
+      have hne := take_ne_of_not_prefix (by omega) hpre
+      have htl : (f.take p.length).length = p.length := by simp; omega
+      have hsplit : f = f.take p.length ++ f.drop p.length := (List.take_append_drop _ _).symm
+      cases hlt : pathLt (f.take p.length) p with
+      | true => simp [inL, BdLen]
+      | false =>
+        exfalso
+        simp only [inL] at hin
+        rcases hin with h1 | h1
+        · have : p.isPrefixOf f = true := isPrefixOf_true_iff.mpr ⟨k', h1.symm⟩
+          rw [hpre] at this; cases this
+        · rw [hsplit, pathLt_append_of_ne _ _ _ _ htl hne, hlt] at h1
+          cases h1
+
+theorem inU_edge {U : Bd} {h : Nat} {p k' : Path} (hph : p.length ≤ h) (hlen : BdLen U h)
+    (hin : inU U (p ++ k')) : inU (upperEdge p U) k' ∧ BdLen (upperEdge p U) (h - p.length) := by
+  cases U with
+  | unb => simp [upperEdge, inU, BdLen]
+  | out => exact absurd hin (by simp [inU])
+  | «at» f =>
+    have hfl : f.length = h := hlen
+    simp only [upperEdge]
+    cases hpre : p.isPrefixOf f with
+    | true =>
+      obtain ⟨f', rfl⟩ := isPrefixOf_true_iff.mp hpre
+      simp only [if_true, inU, BdLen, List.drop_left'] at hin ⊢
+      constructor
+      · rcases hin with h1 | h1
+        · exact Or.inl (List.append_cancel_left h1)
+        · exact Or.inr (by simpa [pathLt_append_left] using h1)
+      · simp at hfl ⊢; omega
+    | false =>
+      simp only [Bool.false_eq_true, if_false]
+      have hne := take_ne_of_not_prefix (by omega) hpre
+      have htl : (f.take p.length).length = p.length := by simp; omega
+      have hsplit : f = f.take p.length ++ f.drop p.length := (List.take_append_drop _ _).symm
+      cases hlt : pathLt p (f.take p.length) with
+      | true => simp [inU, BdLen]
+      | false =>
+        exfalso
+        simp only [inU] at hin
+        rcases hin with h1 | h1
+        · have : p.isPrefixOf f = true := isPrefixOf_true_iff.mpr ⟨k', h1⟩
+          rw [hpre] at this; cases this
+        · rw [hsplit, pathLt_append_of_ne _ _ _ _ htl.symm (Ne.symm hne), hlt] at h1
+          cases h1
+
+
+theorem stripPrefix_spec {p : Path} {kvs kvs' : List (Path × H)} (h : stripPrefix p kvs = some kvs') :
+    (∀ kv ∈ kvs, p.isPrefixOf kv.1 = true) ∧ kvs' = kvs.map (fun kv => (kv.1.drop p.length, kv.2)) := by
+  unfold stripPrefix at h
+  split at h
+  · rename_i hall
+    cases h
+    exact ⟨by simpa using hall, rfl⟩
+  · cases h
+
+theorem lastVal_strip {p : Path} {kvs : List (Path × H)} (hall : ∀ kv ∈ kvs, p.isPrefixOf kv.1 = true)
+    (k' : Path) :
+    lastVal (kvs.map (fun kv => (kv.1.drop p.length, kv.2))) k' = lastVal kvs (p ++ k') := by
+  unfold lastVal
+  have : (kvs.map (fun kv => (kv.1.drop p.length, kv.2))).filter (fun kv => kv.1 = k') =
+      (kvs.filter (fun kv => kv.1 = p ++ k')).map (fun kv => (kv.1.drop p.length, kv.2)) := by
+    induction kvs with
+    | nil => rfl
+    | cons kv rest ih =>
+      have hp := hall kv (List.mem_cons_self ..)
+      obtain ⟨t, ht⟩ := isPrefixOf_true_iff.mp hp
+      have ih' := ih (fun kv hkv => hall kv (List.mem_cons_of_mem _ hkv))
+      have hd : kv.1.drop p.length = t := by rw [← ht]; simp
+      by_cases hk : t = k'
+      · have : kv.1 = p ++ k' := by rw [← ht, hk]
+        simp [List.filter_cons, hd, hk, this, ih']
+      · have : ¬ kv.1 = p ++ k' := by
+          intro h; rw [← ht] at h; exact hk (List.append_cancel_left h)
+        simp [List.filter_cons, hd, hk, this, ih']
+  rw [this, List.getLast?_map]
+  cases (kvs.filter (fun kv => kv.1 = p ++ k')).getLast? <;> rfl
+
+theorem lastVal_none_of_not_mem {kvs : List (Path × H)} {k : Path} (h : ∀ kv ∈ kvs, kv.1 ≠ k) :
+    lastVal kvs k = none := by
+  unfold lastVal
+  have : kvs.filter (fun kv => kv.1 = k) = [] := by
+    apply List.filter_eq_nil_iff.mpr
+    intro kv hkv
+    simpa using h kv hkv
+  simp [this]
+
+theorem edge_lookup_not_prefix {p : Path} {c : PT H} {k : Path} (hp0 : ¬ p.length = 0)
+    (hlen : p.length ≤ k.length) (hpre : p.isPrefixOf k = false) :
+    (PT.edge p c).lookup A k = some A.zero := by
+  simp [PT.lookup, hp0, hpre, hlen]
+
+theorem fill_lookup (rc : RCfg) (hul : rc.unsetLeaf = true) :
+    ∀ (T : PT H) (L U : Bd) (h : Nat) (pb : Bool) (kvs : List (Path × H)) (F : PT H),
+      fill A rc T L U h pb kvs = some F → (∀ kv ∈ kvs, kv.1.length = h) → (∀ kv ∈ kvs, kv.2 ≠ A.zero) →
+      BdLen L h → BdLen U h → ∀ k, k.length = h → inL L k → inU U k →
+      F.lookup A k = some ((lastVal kvs k).getD A.zero) := by
+  intro T
+  induction T with
+  | nil =>
+    intro L U h pb kvs F hf hl hv hL hU k hk hinL hinU
+    unfold fill at hf
+    split at hf
+    · rename_i ho; rcases ho with ho | ho
+      · rw [ho] at hinL; exact absurd hinL (by simp [inL])
+      · rw [ho] at hinU; exact absurd hinU (by simp [inU])
+    · split at hf
+      · cases hf; exact embed_build_lookup h kvs k hl hk
+      · cases hf; exact embed_build_lookup h kvs k hl hk
+  | hash x =>
+    intro L U h pb kvs F hf hl hv hL hU k hk hinL hinU
+    unfold fill at hf
+    split at hf
+    · rename_i ho; rcases ho with ho | ho
+      · rw [ho] at hinL; exact absurd hinL (by simp [inL])
+      · rw [ho] at hinU; exact absurd hinU (by simp [inU])
+    · split at hf
+      · cases hf; exact embed_build_lookup h kvs k hl hk
+      · cases hf
+  | leaf v =>
+    intro L U h pb kvs F hf hl hv hL hU k hk hinL hinU
+    unfold fill at hf
+    split at hf
+    · rename_i ho; rcases ho with ho | ho
+      · rw [ho] at hinL; exact absurd hinL (by simp [inL])
+      · rw [ho] at hinU; exact absurd hinU (by simp [inU])
+    · split at hf
+      · cases hf; exact embed_build_lookup h kvs k hl hk
+      · simp only [hul, Bool.not_true, Bool.false_and, Bool.false_eq_true, if_false] at hf
+        split at hf
+        · cases hf
+        · rename_i hh0
+          cases hf
+          have : h = 0 := by simpa using hh0
+          subst this
+          exact embed_build_lookup 0 kvs k hl hk
+  | bin l r ihl ihr =>
+    intro L U h pb kvs F hf hl hv hL hU k hk hinL hinU
+    unfold fill at hf
+    split at hf
+    · rename_i ho; rcases ho with ho | ho
+      · rw [ho] at hinL; exact absurd hinL (by simp [inL])
+      · rw [ho] at hinU; exact absurd hinU (by simp [inU])
+    · split at hf
+      · cases hf; exact embed_build_lookup h kvs k hl hk
+      · cases h with
+        | zero => simp at hf
+        | succ h' =>
+          simp only at hf
+          cases hfl : fill A rc l (lowerBin L).1 (upperBin U).1 h' true (keysUnder false kvs) with
+          | none => simp [hfl] at hf
+          | some l' =>
+            cases hfr : fill A rc r (lowerBin L).2 (upperBin U).2 h' true (keysUnder true kvs) with
+            | none => simp [hfl, hfr] at hf
+            | some r' =>
+              simp only [hfl, hfr, Option.some.injEq] at hf
+              subst hf
+              cases k with
+              | nil => simp at hk
+              | cons b k' =>
+                have hk' : k'.length = h' := by simpa using hk
+                obtain ⟨hiL, hbL⟩ := inL_bin (b := b) (k' := k') hL hinL
+                obtain ⟨hiU, hbU⟩ := inU_bin (b := b) (k' := k') hU hinU
+                rw [← lastVal_keysUnder]
+                have hv' : ∀ (bb : Bool), ∀ kv ∈ keysUnder bb kvs, kv.2 ≠ A.zero := by
+                  intro bb kv hkv
+                  simp only [keysUnder, List.mem_filterMap] at hkv
+                  obtain ⟨kv0, hm, hs⟩ := hkv
+                  cases hkey : kv0.1 with
+                  | nil => simp [hkey] at hs
+                  | cons x t =>
+                    simp only [hkey] at hs
+                    split at hs
+                    · cases hs; exact hv kv0 hm
+                    · cases hs
+                cases b
+                · simp only [Bool.false_eq_true, if_false] at hiL hbL hiU hbU
+                  simp only [PT.lookup, Bool.false_eq_true, if_false]
+                  exact ihl _ _ h' true _ l' hfl (keysUnder_length hl) (hv' false) hbL hbU k' hk' hiL hiU
+                · simp only [if_true] at hiL hbL hiU hbU
+                  simp only [PT.lookup, if_true]
+                  exact ihr _ _ h' true _ r' hfr (keysUnder_length hl) (hv' true) hbL hbU k' hk' hiL hiU
+  | edge p c ih =>
+    intro L U h pb kvs F hf hl hv hL hU k hk hinL hinU
+    unfold fill at hf
+    split at hf
+    · rename_i ho; rcases ho with ho | ho
+      · rw [ho] at hinL; exact absurd hinL (by simp [inL])
+      · rw [ho] at hinU; exact absurd hinU (by simp [inU])
+    · split at hf
+      · cases hf; exact embed_build_lookup h kvs k hl hk
+      · simp only at hf
+        split at hf
+        · cases hf
+        · rename_i hbad
+          have hp0 : ¬ p.length = 0 := fun h0 => hbad (Or.inl h0)
+          have hph : p.length ≤ h := by
+            by_cases hc : h < p.length
+            · exact absurd (Or.inr hc) hbad
+            · omega
+          split at hf
+          · -- the whole edge lies beyond an end
+            rename_i hout
+            split at hf
+            · rename_i hall
+              cases hf
+              cases hpre : p.isPrefixOf k with
+              | true =>
+                exfalso
+                obtain ⟨k', rfl⟩ := isPrefixOf_true_iff.mp hpre
+                have h1 := (inL_edge hph hL hinL).1
+                have h2 := (inU_edge hph hU hinU).1
+                rcases hout with ho | ho
+                · rw [ho] at h1; exact h1
+                · rw [ho] at h2; exact h2
+              | false =>
+                rw [edge_lookup_not_prefix hp0 (by omega) hpre]
+                have : lastVal kvs k = none := by
+                  apply lastVal_none_of_not_mem
+                  intro kv hkv hkeq
+                  have hlk : (PT.edge p c).lookup A kv.1 = some kv.2 := by
+                    have := List.all_eq_true.mp hall kv hkv
+                    simpa using this
+                  rw [hkeq, edge_lookup_not_prefix hp0 (by omega) hpre] at hlk
+                  exact hv kv hkv (Option.some.inj hlk).symm
+                simp [this]
+            · cases hf
+          · split at hf
+            · cases hf; exact embed_build_lookup h kvs k hl hk
+            · cases hsp : stripPrefix p kvs with
+              | none => simp [hsp] at hf
+              | some kvs' =>
+                obtain ⟨hallp, hkvs'⟩ := stripPrefix_spec hsp
+                simp only [hsp] at hf
+                cases hfc : fill A rc c (lowerEdge p L) (upperEdge p U) (h - p.length) false kvs' with
+                | none => simp [hfc] at hf
+                | some c' =>
+                  have hl' : ∀ kv ∈ kvs', kv.1.length = h - p.length := by
+                    intro kv hkv
+                    rw [hkvs'] at hkv
+                    obtain ⟨kv0, hm, rfl⟩ := List.mem_map.mp hkv
+                    simp [hl kv0 hm]
+                  have hv'' : ∀ kv ∈ kvs', kv.2 ≠ A.zero := by
+                    intro kv hkv
+                    rw [hkvs'] at hkv
+                    obtain ⟨kv0, hm, rfl⟩ := List.mem_map.mp hkv
+                    exact hv kv0 hm
+                  cases hpre : p.isPrefixOf k with
+                  | true =>
+                    obtain ⟨k', rfl⟩ := isPrefixOf_true_iff.mp hpre
+                    obtain ⟨hiL, hbL⟩ := inL_edge hph hL hinL
+                    obtain ⟨hiU, hbU⟩ := inU_edge hph hU hinU
+                    have hk' : k'.length = h - p.length := by simp at hk; omega
+                    have hc' := ih _ _ _ false kvs' c' hfc hl' hv'' hbL hbU k' hk' hiL hiU
+                    rw [hkvs', lastVal_strip hallp] at hc'
+                    have hFl : F.lookup A (p ++ k') = c'.lookup A k' := by
+                      rw [hfc] at hf
+                      cases c' with
+                      | nil => simp at hf; subst hf; simp [PT.lookup]
+                      | hash x => simp at hf; subst hf; simp [PT.lookup, hp0, hpre]
+                      | leaf x => simp at hf; subst hf; simp [PT.lookup, hp0, hpre]
+                      | bin a b => simp at hf; subst hf; simp [PT.lookup, hp0, hpre]
+                      | edge q d => simp at hf; subst hf; simp [PT.lookup, hp0, hpre]
+                    rw [hFl]; exact hc'
+                  | false =>
+                    have hnone : lastVal kvs k = none := by
+                      apply lastVal_none_of_not_mem
+                      intro kv hkv hkeq
+                      have := hallp kv hkv
+                      rw [hkeq, hpre] at this; cases this
+                    rw [hfc] at hf
+                    have hFz : F.lookup A k = some A.zero := by
+                      cases c' with
+                      | nil => simp at hf; subst hf; simp [PT.lookup]
+                      | hash x => simp at hf; subst hf; exact edge_lookup_not_prefix hp0 (by omega) hpre
+                      | leaf x => simp at hf; subst hf; exact edge_lookup_not_prefix hp0 (by omega) hpre
+                      | bin a b => simp at hf; subst hf; exact edge_lookup_not_prefix hp0 (by omega) hpre
+                      | edge q d => simp at hf; subst hf; exact edge_lookup_not_prefix hp0 (by omega) hpre
+                    rw [hFz, hnone]; rfl
+
+
+theorem multi_sound (hI : Ideal A) (rc : RCfg) (hul : rc.unsetLeaf = true) (t : Tree H) (n : Nat)
+    (hwf : WF t n) (first : Path) (hfl : first.length = n) (kvs : List (Path × H))
+    (hkl : ∀ kv ∈ kvs, kv.1.length = n) (P : PSet H) (more : Bool)
+    (h : verifyMulti A rc (t.hash A) first kvs P = RRes.ok more) :
+    ∃ lastKV, kvs.getLast? = some lastKV ∧ pathLt first lastKV.1 = true ∧
+      ∀ k, k.length = n → (first = k ∨ pathLt first k = true) → (k = lastKV.1 ∨ pathLt k lastKV.1 = true) →
+        t.get A k = (lastVal kvs k).getD A.zero := by
+  unfold verifyMulti at h
+  cases hlast : kvs.getLast? with
+  | none => simp [hlast] at h
+  | some lastKV =>
+    simp only [hlast] at h
+    split at h
+    · cases h
+    · rename_i hnz
+      split at h
+      · cases h
+      · split at h
+        · cases h
+        · rename_i hlt
+          cases hr1 : resolvePT A rc P (2 * verifyFuel) (PT.hash (t.hash A)) first with
+          | none => simp [hr1] at h
+          | some t1 =>
+            simp only [hr1] at h
+            cases hr2 : resolvePT A rc P (2 * verifyFuel) t1 lastKV.1 with
+            | none => simp [hr2] at h
+            | some t2 =>
+              simp only [hr2] at h
+              cases hfill : fill A rc t2 (Bd.at first) (Bd.at lastKV.1) first.length false kvs with
+              | none => simp [hfill] at h
+              | some f =>
+                simp only [hfill] at h
+                split at h
+                · rename_i hroot
+                  refine ⟨lastKV, rfl, by simpa using hlt, ?_⟩
+                  intro k hk hge hle
+                  have hlastlen : lastKV.1.length = n := hkl lastKV (List.mem_of_getLast? hlast)
+                  have hv : ∀ kv ∈ kvs, kv.2 ≠ A.zero := by
+                    intro kv hkv hz
+                    apply hnz
+                    exact List.any_eq_true.mpr ⟨kv, hkv, by simpa using hz⟩
+                  have hlook := fill_lookup (A := A) rc hul t2 (Bd.at first) (Bd.at lastKV.1) first.length false
+                    kvs f hfill (by rw [hfl]; exact hkl) hv (by simp [BdLen]) (by simp [BdLen, hlastlen, hfl])
+                    k (by omega) hge hle
+                  exact lookup_agree hI f t n k _ hwf hk hroot hlook
+                · cases h
+
+/-! ### trie2 range proofs, general case: the `more` flag -/
+
+/-- inner nodes of the partial trie sit at heights that can hold them -/
+def PT.Fits : PT H → Nat → Prop
+  | .nil, _ => True
+  | .hash _, _ => True
+  | .leaf _, _ => True
+  | .bin l r, n => ∃ m, n = m + 1 ∧ l.Fits m ∧ r.Fits m
+  | .edge p c, n => p ≠ [] ∧ ∃ m, n = p.length + m ∧ c.Fits m
+
+theorem ptOfChild_phash (c : Child H) : (ptOfChild c).phash A = c.felt A := by
+  unfold ptOfChild Child.felt
+  cases c.tag <;> rfl
+
+theorem ptOfChild_fits (c : Child H) (n : Nat) : (ptOfChild c).Fits n := by
+  unfold ptOfChild
+  cases c.tag <;> simp [PT.Fits]
+
+theorem ptOfNode_phash (nd : PNode H) : (ptOfNode nd).phash A = nd.hash A := by
+  cases nd <;> simp [ptOfNode, PT.phash, PNode.hash, ptOfChild_phash]
+
+theorem edge_more_mismatch {p : Path} {c : Tree H} {n : Nat} (hc : WF c n) (key : Path)
+    (hk : key.length = p.length + n) (hpre : p.isPrefixOf key = false) :
+    (cmpGt (if key.length > p.length then p ++ List.replicate (key.length - p.length) false else p) key = true
+      ↔ GtIn (Tree.edge p c) (p.length + n) key) := by
+  have hpad : (if key.length > p.length then p ++ List.replicate (key.length - p.length) false else p)
+      = p ++ List.replicate n false := by
+    by_cases hn : n = 0
+    · subst hn
+      have : ¬ key.length > p.length := by omega
+      simp [this]
+    · have : key.length > p.length := by omega
+      simp only [this, if_true]
+      congr 2
+      omega
+  rw [hpad, cmpGt_eq_pathLt (by simp; omega), gtIn_edge_mismatch hc key hk hpre]
+  have hsplit : key = key.take p.length ++ key.drop p.length := (List.take_append_drop _ _).symm
+  have hlen : (key.take p.length).length = p.length := by simp; omega
+  have hneq : key.take p.length ≠ p := take_ne_of_not_prefix (by omega) hpre
+  conv => lhs; rw [hsplit, pathLt_append_of_ne _ _ _ _ hlen hneq]
+
+theorem resolvePT_auth (hI : Ideal A) (rc : RCfg) (hch : rc.checkHash = true)
+    (hev : rc.earlyValue = false) (hlh : rc.leafHash = true) (P : PSet H) :
+    ∀ (fuel : Nat) (T : PT H) (t : Tree H) (n : Nat) (k : Path) (T' : PT H),
+      WF t n → t.NZ A → T.Fits n → T.phash A = t.hash A → k.length = n →
+      resolvePT A rc P fuel T k = some T' →
+      T'.Fits n ∧ T'.phash A = t.hash A ∧ (hasRightPT T' k = true ↔ GtIn t n k) := by
+  intro fuel
+  induction fuel with
+  | zero => intro T t n k T' _ _ _ _ _ h; simp [resolvePT] at h
+  | succ f ih =>
+    intro T t n k T' hwf hnz hfit hph hk h
+    cases T with
+    | nil =>
+      exact absurd hph.symm (hash_ne_zero_nz hI hwf hnz)
+    | leaf v =>
+      simp only [resolvePT, hev, Bool.false_or] at h
+      split at h
+      · rename_i hk0
+        cases h
+        have hn0 : n = 0 := by simpa [hk] using hk0
+        subst hn0
+        obtain ⟨x, rfl⟩ := hwf.zero_inv
+        exact ⟨hfit, hph, by simp [hasRightPT, gtIn_leaf]⟩
+      · cases h
+    | hash x =>
+      simp only [resolvePT, hlh, Bool.true_and] at h
+      split at h
+      · rename_i hk0
+        cases h
+        have hn0 : n = 0 := by simpa [hk] using hk0
+        subst hn0
+        obtain ⟨y, rfl⟩ := hwf.zero_inv
+        exact ⟨by simp [PT.Fits], hph, by simp [hasRightPT, gtIn_leaf]⟩
+      · rename_i hk0
+        have hn : 0 < n := by
+          have : ¬ k.length = 0 := by simpa using hk0
+          omega
+        cases hget : P.get x with
+        | none => simp [hget] at h
+        | some nd =>
+          simp only [hget, hch, Bool.true_and] at h
+          split at h
+          · cases h
+          · rename_i hh
+            have hnd : nd.hash A = t.hash A := by
+              have : nd.hash A = x := by simpa using hh
+              rw [this]; exact hph
+            have hfit' : (ptOfNode nd).Fits n := by
+              cases t with
+              | leaf v => have := hwf.leaf_inv; omega
+              | bin tl tr =>
+                obtain ⟨m, rfl, _, _⟩ := hwf.bin_inv
+                obtain ⟨l', r', c', rfl, _, _⟩ := pnode_of_hash_bin hI (a := tl.hash A) (b := tr.hash A) hnd
+                exact ⟨m, rfl, ptOfChild_fits _ _, ptOfChild_fits _ _⟩
+              | edge p c =>
+                obtain ⟨m, rfl, hp, _⟩ := hwf.edge_inv
+                obtain ⟨ch, cc, rfl, _⟩ := pnode_of_hash_edge hI (c := c.hash A) (p := p) hnd
+                exact ⟨hp, m, rfl, ptOfChild_fits _ _⟩
+            exact ih (ptOfNode nd) t n k T' hwf hnz hfit' (by rw [ptOfNode_phash]; exact hnd) hk h
+    | bin l r =>
+      obtain ⟨m, rfl, hfl, hfr⟩ := hfit
+      simp only [PT.phash] at hph
+      cases t with
+      | leaf v => have := hwf.leaf_inv; omega
+      | edge p c => exact absurd hph (hI.bin_ne_edge _ _ _ _)
+      | bin tl tr =>
+        obtain ⟨m', hm', hwl, hwr⟩ := hwf.bin_inv
+        have hmm : m' = m := by omega
+        subst hmm
+        obtain ⟨h1, h2⟩ := hI.bin_inj _ _ _ _ hph
+        obtain ⟨hnzl, hnzr⟩ := hnz
+        cases k with
+        | nil => simp at hk
+        | cons b k' =>
+          have hk' : k'.length = m' := by simpa using hk
+          simp only [resolvePT, List.headD_cons, List.drop_one, List.tail_cons] at h
+          cases b with
+          | true =>
+            simp only [if_true] at h
+            cases hr : resolvePT A rc P f r k' with
+            | none => simp [hr] at h
+            | some r' =>
+              simp only [hr, Option.map_some, Option.some.injEq] at h
+              subst h
+              obtain ⟨hf', hp', hm⟩ := ih r tr m' k' r' hwr hnzr hfr h2 hk' hr
+              refine ⟨⟨m', rfl, hfl, hf'⟩, by simp [PT.phash, h1, hp', Tree.hash], ?_⟩
+              have hgt := gtIn_bin (l := tl) hwr true k'
+              simp only [if_true] at hgt
+              rw [hgt, ← hm]
+              simp [hasRightPT]
+          | false =>
+            simp only [Bool.false_eq_true, if_false] at h
+            cases hl : resolvePT A rc P f l k' with
+            | none => simp [hl] at h
+            | some l' =>
+              simp only [hl, Option.map_some, Option.some.injEq] at h
+              subst h
+              obtain ⟨hf', hp', _⟩ := ih l tl m' k' l' hwl hnzl hfl h1 hk' hl
+              refine ⟨⟨m', rfl, hf', hfr⟩, by simp [PT.phash, h2, hp', Tree.hash], ?_⟩
+              have hgoal := gtIn_bin_left (l := tl) hwr k'
+              cases r with
+              | nil => exact absurd (show A.zero = tr.hash A from h2).symm (hash_ne_zero_nz hI hwr hnzr)
+              | hash _ => simpa [hasRightPT] using hgoal
+              | leaf _ => simpa [hasRightPT] using hgoal
+              | bin _ _ => simpa [hasRightPT] using hgoal
+              | edge _ _ => simpa [hasRightPT] using hgoal
+    | edge p c =>
+      obtain ⟨hp0, m, rfl, hfc⟩ := hfit
+      have hplen : 0 < p.length := List.length_pos_iff.mpr hp0
+      simp only [PT.phash] at hph
+      cases t with
+      | leaf v => have := hwf.leaf_inv; omega
+      | bin tl tr => exact absurd hph.symm (hI.bin_ne_edge _ _ _ _)
+      | edge p' c' =>
+        obtain ⟨m', hm', _, hwc⟩ := hwf.edge_inv
+        obtain ⟨h1, h2⟩ := hI.edge_inj _ _ _ _ hph
+        subst h2
+        have hmm : m' = m := by omega
+        subst hmm
+        have hcomp : pathCompat p k = p.isPrefixOf k := by
+          rw [pathCompat_comm]; exact pathCompat_of_le (by omega)
+        simp only [resolvePT, hcomp] at h
+        cases hpre : p.isPrefixOf k with
+        | false =>
+          simp only [hpre, Bool.not_false, if_true, Option.some.injEq] at h
+          subst h
+          refine ⟨⟨hp0, m', rfl, hfc⟩, by simp [PT.phash, h1, Tree.hash], ?_⟩
+          simp only [hasRightPT, hcomp, hpre, Bool.not_false, if_true]
+          exact edge_more_mismatch hwc k hk hpre
+        | true =>
+          simp only [hpre, Bool.not_true, Bool.false_eq_true, if_false] at h
+          obtain ⟨k', rfl⟩ := isPrefixOf_true_iff.mp hpre
+          have hk' : k'.length = m' := by simp at hk; omega
+          have hdrop : (p ++ k').drop p.length = k' := by simp
+          rw [hdrop] at h
+          cases hr : resolvePT A rc P f c k' with
+          | none => simp [hr] at h
+          | some c'' =>
+            simp only [hr, Option.map_some, Option.some.injEq] at h
+            subst h
+            obtain ⟨hf', hp', hm⟩ := ih c c' m' k' c'' hwc hnz hfc h1 hk' hr
+            refine ⟨⟨hp0, m', rfl, hf'⟩, by simp [PT.phash, hp', Tree.hash], ?_⟩
+            simp only [hasRightPT, hcomp, hpre, Bool.not_true, Bool.false_eq_true, if_false, hdrop]
+            rw [hm, gtIn_edge_match]
+
+
+theorem multi_more (hI : Ideal A) (rc : RCfg) (hch : rc.checkHash = true) (hev : rc.earlyValue = false)
+    (hlh : rc.leafHash = true) (t : Tree H) (n : Nat) (hwf : WF t n) (hnz : t.NZ A) (first : Path)
+    (hfl : first.length = n) (kvs : List (Path × H)) (hkl : ∀ kv ∈ kvs, kv.1.length = n) (P : PSet H)
+    (more : Bool) (h : verifyMulti A rc (t.hash A) first kvs P = RRes.ok more) :
+    ∃ lastKV, kvs.getLast? = some lastKV ∧ (more = true ↔ GtIn t n lastKV.1) := by
+  unfold verifyMulti at h
+  cases hlast : kvs.getLast? with
+  | none => simp [hlast] at h
+  | some lastKV =>
+    refine ⟨lastKV, rfl, ?_⟩
+    have hlastlen : lastKV.1.length = n := hkl lastKV (List.mem_of_getLast? hlast)
+    simp only [hlast] at h
+    split at h
+    · cases h
+    · split at h
+      · cases h
+      · split at h
+        · cases h
+        · cases hr1 : resolvePT A rc P (2 * verifyFuel) (PT.hash (t.hash A)) first with
+          | none => simp [hr1] at h
+          | some t1 =>
+            simp only [hr1] at h
+            cases hr2 : resolvePT A rc P (2 * verifyFuel) t1 lastKV.1 with
+            | none => simp [hr2] at h
+            | some t2 =>
+              simp only [hr2] at h
+              obtain ⟨hf1, hp1, _⟩ := resolvePT_auth hI rc hch hev hlh P _ (PT.hash (t.hash A)) t n first t1
+                hwf hnz (by simp [PT.Fits]) rfl hfl hr1
+              obtain ⟨_, _, hm⟩ := resolvePT_auth hI rc hch hev hlh P _ t1 t n lastKV.1 t2
+                hwf hnz hf1 hp1 hlastlen hr2
+              cases hfill : fill A rc t2 (Bd.at first) (Bd.at lastKV.1) first.length false kvs with
+              | none => simp [hfill] at h
+              | some f =>
+                simp only [hfill] at h
+                split at h
+                · cases h; exact hm
+                · cases h
+
 end Juno.C10
